@@ -434,7 +434,7 @@ def f5(repo: Repo) -> RuleResult:
         }
         for value in ("little", "big", "both"):
             try:
-                flow = block_flow(repo, cname, "impls/c/renderer_c.py", "CFormatter", "impls/c/formatter.py", {}, keep=("format_op_mode_message_endian", "_get_ctx_or_raise"), pure=("format_op_mode_message_endian", "_get_ctx_or_raise"))
+                flow = block_flow(repo, cname, "impls/c/renderer_c.py", "CFormatter", "impls/c/formatter.py", {}, keep=("format_op_mode_message_endian", "_get_ctx_or_raise"), pure=("format_op_mode_message_endian", "_get_ctx_or_raise"), inline_props=lambda n_, f_: "optimization_mode_endian" in src_of(f_))
                 flow.decide = endian_decider(value)
                 paths = [p_ for p_ in flow.run(rfn.node, {"self": V("self")}) if p_.done == "return"]
             except Inconclusive as e:
